@@ -105,12 +105,12 @@ package apd
 //@   layer bigint
 //@   requires rep(z) && writable(tmp)
 //@   assigns *tmp
-//@   ensures ret != nil && val(ret) == val(z) && (heapform(z) ==> ret == z._inner && backing(ret) == 0) && (!heapform(z) ==> ret == tmp && backing(ret) == z)
+//@   ensures ret != nil && val(ret) == val(z) && !negzero(ret) && (heapform(z) ==> ret == z._inner && backing(ret) == 0) && (!heapform(z) ==> ret == tmp && backing(ret) == z)
 
 //@ func (*BigInt).updateInner
 //@   trusted unsafe bridge: adopts src's words or switches to a fresh heap big.Int; exercised by the bounded differential check
 //@   layer bigint
-//@   requires writable(z) && src != nil
+//@   requires writable(z) && src != nil && !negzero(src)
 //@   assigns z
 //@   allocates
 //@   ensures val(z) == old(val(src)) && rep(z) && (heapform(z) ==> (z._inner == old(z._inner) || isfresh(z._inner)))
@@ -118,42 +118,42 @@ package apd
 //@ func math/big.(*Int).Abs
 //@   trusted math/big documented semantics; operands may alias; only the receiver is written
 //@   assigns *z
-//@   ensures val(z) == abs(old(val(x))) && ret == z
+//@   ensures val(z) == abs(old(val(x))) && ret == z && !negzero(z)
 //@ func math/big.(*Int).Neg
 //@   trusted math/big documented semantics
 //@   assigns *z
-//@   ensures val(z) == -old(val(x)) && ret == z
+//@   ensures val(z) == -old(val(x)) && ret == z && !negzero(z)
 //@ func math/big.(*Int).Set
 //@   trusted math/big documented semantics
 //@   assigns *z
-//@   ensures val(z) == old(val(x)) && ret == z
+//@   ensures val(z) == old(val(x)) && ret == z && !negzero(z)
 //@ func math/big.(*Int).Add
 //@   trusted math/big documented semantics
 //@   assigns *z
-//@   ensures val(z) == old(val(x)) + old(val(y)) && ret == z
+//@   ensures val(z) == old(val(x)) + old(val(y)) && ret == z && !negzero(z)
 //@ func math/big.(*Int).Sub
 //@   trusted math/big documented semantics
 //@   assigns *z
-//@   ensures val(z) == old(val(x)) - old(val(y)) && ret == z
+//@   ensures val(z) == old(val(x)) - old(val(y)) && ret == z && !negzero(z)
 //@ func math/big.(*Int).Mul
 //@   trusted math/big documented semantics
 //@   assigns *z
-//@   ensures val(z) == old(val(x)) * old(val(y)) && ret == z
+//@   ensures val(z) == old(val(x)) * old(val(y)) && ret == z && !negzero(z)
 //@ func math/big.(*Int).Quo
 //@   trusted math/big documented semantics (truncated division; panics for y == 0)
 //@   requires val(y) != 0
 //@   assigns *z
-//@   ensures val(z) == tdiv(old(val(x)), old(val(y))) && ret == z
+//@   ensures val(z) == tdiv(old(val(x)), old(val(y))) && ret == z && !negzero(z)
 //@ func math/big.(*Int).Rem
 //@   trusted math/big documented semantics (truncated remainder; panics for y == 0)
 //@   requires val(y) != 0
 //@   assigns *z
-//@   ensures val(z) == tmod(old(val(x)), old(val(y))) && ret == z
+//@   ensures val(z) == tmod(old(val(x)), old(val(y))) && ret == z && !negzero(z)
 //@ func math/big.(*Int).QuoRem
 //@   trusted math/big documented semantics
 //@   requires val(y) != 0 && z != r
 //@   assigns *z, *r
-//@   ensures val(z) == tdiv(old(val(x)), old(val(y))) && val(r) == tmod(old(val(x)), old(val(y))) && ret0 == z && ret1 == r
+//@   ensures val(z) == tdiv(old(val(x)), old(val(y))) && val(r) == tmod(old(val(x)), old(val(y))) && ret0 == z && ret1 == r && !negzero(z) && !negzero(r)
 //@ func math/big.(*Int).Cmp
 //@   trusted math/big documented semantics
 //@   pure
@@ -194,7 +194,7 @@ package apd
 //@ func math/big.(*Int).Rsh
 //@   trusted math/big documented semantics
 //@   assigns *z
-//@   ensures (old(val(x)) >= 0 ==> val(z) == div(old(val(x)), pow2(n))) && ret == z
+//@   ensures (old(val(x)) >= 0 ==> val(z) == div(old(val(x)), pow2(n))) && ret == z && !negzero(z)
 
 // the wrappers: fast path proved from the representation, slow path against the assumed bridge contracts
 
@@ -365,7 +365,7 @@ package apd
 //@   trusted math/big (x**y, or x**y mod |m| for a non-zero m; 1 for y <= 0 without modulus; nil and z unchanged when y < 0 and x, m are not coprime; operand aliasing is detected on the words); the base-10 clause is the same fact stated with pow10
 //@   nilable m
 //@   assigns *z
-//@   ensures (ret == nil || ret == z) && (ret == nil ==> val(z) == old(val(z)) && m != nil && old(val(m)) != 0 && old(val(y)) < 0)
+//@   ensures (ret == nil || ret == z) && (ret == nil ==> val(z) == old(val(z)) && m != nil && old(val(m)) != 0 && old(val(y)) < 0) && (ret == z ==> !negzero(z)) && (ret == nil ==> (negzero(z) <==> old(negzero(z))))
 //@   ensures (m == nil || old(val(m)) == 0) ==> (ret == z && val(z) == ite(old(val(y)) <= 0, 1, uf_pow(old(val(x)), old(val(y)))))
 //@   ensures (m == nil || old(val(m)) == 0) && old(val(x)) == 10 && old(val(y)) >= 0 ==> val(z) == pow10(old(val(y)))
 //@   ensures m != nil && old(val(m)) != 0 && ret == z ==> val(z) == uf_expmod(old(val(x)), old(val(y)), old(val(m)))
@@ -1673,7 +1673,7 @@ package apd
 //@ func math/big.(*Int).And
 //@   trusted math/big: result is a function of the operand values only; only the receiver is written
 //@   assigns *z
-//@   ensures val(z) == uf_and(old(val(x)), old(val(y))) && ret == z
+//@   ensures val(z) == uf_and(old(val(x)), old(val(y))) && ret == z && !negzero(z)
 //@ func (*BigInt).And
 //@   layer bigint
 //@   props C16 C05 C06
@@ -1684,7 +1684,7 @@ package apd
 //@ func math/big.(*Int).AndNot
 //@   trusted math/big: result is a function of the operand values only; only the receiver is written
 //@   assigns *z
-//@   ensures val(z) == uf_andnot(old(val(x)), old(val(y))) && ret == z
+//@   ensures val(z) == uf_andnot(old(val(x)), old(val(y))) && ret == z && !negzero(z)
 //@ func (*BigInt).AndNot
 //@   layer bigint
 //@   props C16 C05 C06
@@ -1695,7 +1695,7 @@ package apd
 //@ func math/big.(*Int).Or
 //@   trusted math/big: result is a function of the operand values only; only the receiver is written
 //@   assigns *z
-//@   ensures val(z) == uf_or(old(val(x)), old(val(y))) && ret == z
+//@   ensures val(z) == uf_or(old(val(x)), old(val(y))) && ret == z && !negzero(z)
 //@ func (*BigInt).Or
 //@   layer bigint
 //@   props C16 C05 C06
@@ -1706,7 +1706,7 @@ package apd
 //@ func math/big.(*Int).Xor
 //@   trusted math/big: result is a function of the operand values only; only the receiver is written
 //@   assigns *z
-//@   ensures val(z) == uf_xor(old(val(x)), old(val(y))) && ret == z
+//@   ensures val(z) == uf_xor(old(val(x)), old(val(y))) && ret == z && !negzero(z)
 //@ func (*BigInt).Xor
 //@   layer bigint
 //@   props C16 C05 C06
@@ -1717,7 +1717,7 @@ package apd
 //@ func math/big.(*Int).Not
 //@   trusted math/big: result is a function of the operand value only
 //@   assigns *z
-//@   ensures val(z) == uf_not(old(val(x))) && ret == z
+//@   ensures val(z) == uf_not(old(val(x))) && ret == z && !negzero(z)
 //@ func (*BigInt).Not
 //@   layer bigint
 //@   props C16 C05 C06
@@ -1728,7 +1728,7 @@ package apd
 //@ func math/big.(*Int).Lsh
 //@   trusted math/big: result is a function of the operand value and the shift count
 //@   assigns *z
-//@   ensures val(z) == uf_lsh(old(val(x)), n) && ret == z
+//@   ensures val(z) == uf_lsh(old(val(x)), n) && ret == z && !negzero(z)
 //@ func (*BigInt).Lsh
 //@   layer bigint
 //@   props C16 C05 C06
@@ -1740,7 +1740,7 @@ package apd
 //@   trusted math/big (panics for a negative operand)
 //@   requires val(x) >= 0
 //@   assigns *z
-//@   ensures val(z) == uf_sqrt(old(val(x))) && ret == z
+//@   ensures val(z) == uf_sqrt(old(val(x))) && ret == z && !negzero(z)
 //@ func (*BigInt).Sqrt
 //@   layer bigint
 //@   props C16 C05 C06
@@ -1751,19 +1751,19 @@ package apd
 //@ func math/big.(*Int).MulRange
 //@   trusted math/big
 //@   assigns *z
-//@   ensures val(z) == uf_mulrange(a, b) && ret == z
+//@   ensures val(z) == uf_mulrange(a, b) && ret == z && !negzero(z)
 //@ func (*BigInt).MulRange
 //@   layer bigint
 //@   props C16
 //@   requires writable(z) && rep(z)
-//@   sample y - x <= 3000 || y <= 0
+//@   sample y - x <= 3000
 //@   assigns z
 //@   allocates
 //@   ensures val(z) == uf_mulrange(x, y) && ret == z && rep(z)
 //@ func math/big.(*Int).Binomial
 //@   trusted math/big
 //@   assigns *z
-//@   ensures val(z) == uf_binomial(n, k) && ret == z
+//@   ensures val(z) == uf_binomial(n, k) && ret == z && !negzero(z)
 //@ func (*BigInt).Binomial
 //@   layer bigint
 //@   props C16
@@ -1776,7 +1776,7 @@ package apd
 //@   trusted math/big (panics for a negative index or a bit value other than 0 and 1)
 //@   requires i >= 0 && (b == 0 || b == 1)
 //@   assigns *z
-//@   ensures val(z) == uf_setbit(old(val(x)), i, b) && ret == z
+//@   ensures val(z) == uf_setbit(old(val(x)), i, b) && ret == z && !negzero(z)
 //@ func (*BigInt).SetBit
 //@   layer bigint
 //@   props C16 C05 C06
@@ -1798,7 +1798,7 @@ package apd
 //@   trusted math/big (Euclidean division; panics for y == 0)
 //@   requires val(y) != 0
 //@   assigns *z
-//@   ensures val(z) == div(old(val(x)), old(val(y))) && ret == z
+//@   ensures val(z) == div(old(val(x)), old(val(y))) && ret == z && !negzero(z)
 //@ func (*BigInt).Div
 //@   layer bigint
 //@   props C16 C05 C06
@@ -1816,7 +1816,7 @@ package apd
 //@   trusted math/big (Euclidean modulus; panics for y == 0; y may be the receiver itself, but not a different header over the receiver's words)
 //@   requires val(y) != 0 && (y == z || backing(y) == 0 || backing(y) != backing(z))
 //@   assigns *z
-//@   ensures val(z) == mod(old(val(x)), old(val(y))) && ret == z
+//@   ensures val(z) == mod(old(val(x)), old(val(y))) && ret == z && !negzero(z)
 //@ func (*BigInt).Mod
 //@   layer bigint
 //@   props C16 C05 C06
@@ -1828,7 +1828,7 @@ package apd
 //@   trusted math/big (Euclidean division; y may be the receiver itself, but not a different header over the receiver's words)
 //@   requires val(y) != 0 && z != m && (y == z || backing(y) == 0 || backing(y) != backing(z))
 //@   assigns *z, *m
-//@   ensures val(z) == div(old(val(x)), old(val(y))) && val(m) == mod(old(val(x)), old(val(y))) && ret0 == z && ret1 == m
+//@   ensures val(z) == div(old(val(x)), old(val(y))) && val(m) == mod(old(val(x)), old(val(y))) && ret0 == z && ret1 == m && !negzero(z) && !negzero(m)
 //@ func (*BigInt).DivMod
 //@   layer bigint
 //@   props C16 C05 C06
@@ -1860,7 +1860,7 @@ package apd
 //@ func (*BigInt).SetMathBigInt
 //@   layer bigint
 //@   props C16 C06
-//@   requires writable(z) && rep(z) && x != nil && (isglobal(x) || allocated(x))
+//@   requires writable(z) && rep(z) && x != nil && !negzero(x) && (isglobal(x) || allocated(x))
 //@   assigns z
 //@   allocates
 //@   ensures val(z) == old(val(x)) && ret == z && rep(z)
@@ -1868,7 +1868,7 @@ package apd
 //@   trusted math/big (nil and z unchanged when g and n are not relatively prime; n == 0 divides by zero)
 //@   requires val(n) != 0
 //@   assigns *z
-//@   ensures (ret == nil || ret == z) && (ret == nil ==> val(z) == old(val(z))) && (ret == z ==> val(z) == uf_modinv(old(val(g)), old(val(n))))
+//@   ensures (ret == nil || ret == z) && (ret == nil ==> val(z) == old(val(z))) && (ret == z ==> val(z) == uf_modinv(old(val(g)), old(val(n)))) && (ret == z ==> !negzero(z)) && (ret == nil ==> (negzero(z) <==> old(negzero(z))))
 //@ func (*BigInt).ModInverse
 //@   layer bigint
 //@   props C16 C05 C06
@@ -1880,13 +1880,13 @@ package apd
 //@ func math/big.(*Int).SetUint64
 //@   trusted math/big documented semantics
 //@   assigns *z
-//@   ensures val(z) == x && ret == z
+//@   ensures val(z) == x && ret == z && !negzero(z)
 //@ func math/big.(*Int).GCD
 //@   trusted math/big (z = gcd(a, b) >= 0 for operands of any sign; Bezout coefficients when x, y are given; an output may be an input itself but not a different header over an input's words)
 //@   nilable x, y
 //@   requires z != x && z != y && (x == nil || x != y) && nb(z, a) && nb(z, b) && (x != nil ==> nb(x, a) && nb(x, b) && nb(x, z)) && (y != nil ==> nb(y, a) && nb(y, b) && nb(y, z) && (x != nil ==> nb(y, x)))
 //@   assigns *z, *x, *y
-//@   ensures val(z) == uf_gcd(old(val(a)), old(val(b))) && ret == z && (x != nil ==> val(x) == uf_bezx(old(val(a)), old(val(b)))) && (y != nil ==> val(y) == uf_bezy(old(val(a)), old(val(b))))
+//@   ensures val(z) == uf_gcd(old(val(a)), old(val(b))) && ret == z && !negzero(z) && (x != nil ==> val(x) == uf_bezx(old(val(a)), old(val(b)))) && (y != nil ==> val(y) == uf_bezy(old(val(a)), old(val(b))))
 //@ func (*BigInt).GCD
 //@   layer bigint
 //@   props C16 C05 C06
